@@ -721,7 +721,17 @@ impl MemberOf {
             let pre_member = pre.get_ava_refer(Attribute::Member);
             let post_member = post.get_ava_refer(Attribute::Member);
 
+            // A group that is revived from the recycle bin keeps its member list, but its
+            // members had this group stripped from their memberof when it was deleted: every
+            // member is affected, not only the changed ones.
+            let revived = pre.attribute_equality(Attribute::Class, &EntryClass::Recycled.into())
+                && !post.attribute_equality(Attribute::Class, &EntryClass::Recycled.into());
+
             match (pre_member, post_member) {
+                (Some(pre_m), Some(post_m)) if revived => {
+                    affected_uuids.extend(pre_m);
+                    affected_uuids.extend(post_m);
+                }
                 (Some(pre_m), Some(post_m)) => {
                     // Show only the *changed* uuids for leaf resolution.
                     affected_uuids.extend(pre_m.symmetric_difference(post_m));
